@@ -133,11 +133,17 @@ def handle (w cap digs : Nat) (op : String) (args : List String) (got : String) 
     let m ← pI w ms
     let tooLong := long as_ || long bs || long ds || long es || long ms
     let pred := NtMxp.mxpSim w a b d e m
-    -- specification: a^b·d^e mod m for exponents ≥ 0; negative exponents are outside the contract (the code ignores the sign)
+    -- specification: a^b·d^e mod m (negative exponents through inverses, or a reported error)
     let math := fmt (powModI a b.natAbs m * powModI d e.natAbs m % m)
     let spec : List String :=
       if m = 1 then ["0:u1"]
-      else if m ≤ 0 ∨ b < 0 ∨ e < 0 then [out pred]
+      else if m ≤ 0 then [out pred]
+      else if b < 0 ∨ e < 0 then
+        -- a negative exponent means the inverse (as bn_mxp does); refusing it with an error is admissible, silently returning
+        -- a^|b|·d^|e| is not (finding C09-ext-mxp-1)
+        (match mxpS a b m, mxpS d e m with
+         | some x, some y => [fmt (x * y % m), "err"]
+         | _, _ => ["err"])
       else if m % 2 = 0 then [math, "err"]
       else [math]
     let lb := Rec.bitLen b.natAbs
